@@ -56,7 +56,7 @@ template <> void SoPlex::_loadRealLP(bool initBasis) { rec(K_LOAD, initBasis, (i
 static bool is_verdict(int s) { return s == Solver::OPTIMAL || s == Solver::UNBOUNDED || s == Solver::INFEASIBLE || s == Solver::INForUNBD; }
 static bool is_named_status(int s) { return (s >= -15 && s <= -11) || (s >= -8 && s <= 5); }
 
-struct In { int simp; int s; bool ensureRay, loaded, scaled, polishing, pfeas, dfeas, hasBasis; int stale; };
+struct In { int simp; int s; bool ensureRay, loaded, scaled, polishing, pfeas, dfeas, hasBasis; int stale; bool hasSimp, hasScaler; };
 static SoPlex* make(const In& in)
 {
 #ifdef VP_NATIVE
@@ -77,6 +77,9 @@ static SoPlex* make(const In& in)
    sp->_solReal._isDualFeasible = in.dfeas;
    sp->_hasBasis = in.hasBasis;
    sp->_hasSolReal = false;
+   // the verdict logic must not depend on which simplifier/scaler objects are selected: both pointers are arbitrary
+   sp->_simplifier = in.hasSimp ? &sp->_simplifierMainSM : nullptr;
+   sp->_scaler = in.hasScaler ? &sp->_scalerBiequi : nullptr;
    return sp;
 }
 
@@ -145,6 +148,8 @@ extern "C" void h_c02_evaluate()
    g_eps = vp_small(0, 4);
    g_resolve_status = vp_int_in(-15, 5);
    g_verify_resolves = vp_nondet_bool();
+   in.hasSimp = vp_nondet_bool();
+   in.hasScaler = vp_nondet_bool();
    vp_assume(is_named_status(in.s));
    // a simplifier verdict other than OKAY means the simplex was not run on this LP: solver status is whatever it was before
    SoPlex* sp = make(in);
